@@ -410,9 +410,9 @@ class ProgGen(object):
             else:
                 self.move(x=x, y=y, de=-1.016)
         elif k < 0.96 and f.get("g28mid", False) and not self.believed_open() and not self.is_retracted():
-            ax = r.choice(["", "", " X", " Y", " X Y", " Z"])
+            ax = r.choice(["", "", " X", " Y", " X Y", " Z", " W"])      # "G28 W" (Prusa): all axes, without mesh levelling
             self.emit("G28" + ax)
-            if ax == "":
+            if ax in ("", " W"):
                 self.x = self.y = self.z = 0.0
             else:
                 for a in ax.split():
